@@ -51,6 +51,8 @@ HOURLY_PROFILES = {
     "hourly_robust": {"seed": 5, "scaling_method": "robustscaler"},
     "hourly_edge_rate": {"seed": 5, "temperature_bin": {"edge_bin_rate": 0.05}},
     "hourly_adaptive": {"seed": 5, "elasticnet": {"adaptive_weights": True, "adaptive_weight_max_iter": 5, "adaptive_weight_tol": 1e-3}},
+    "hourly_adaptive_thresholds": {"seed": 5, "cvrmse_threshold": 0.05, "pnrmse_threshold": 0.05,
+                                   "elasticnet": {"adaptive_weights": True, "adaptive_weight_max_iter": 3, "adaptive_weight_tol": 1e-2}},
     "hourly_random_sel": {"seed": 5, "elasticnet": {"selection": "random"}},
     "hourly_min_hours0": {"seed": 5, "min_daily_training_hours": 0},
     "hourly_clusters": {"seed": 5, "temporal_cluster": {"n_cluster_upper": 8, "score_metric": "silhouette"}},
